@@ -6,6 +6,7 @@
 //!
 //!   simmem list                         (natively) the catalogue, one `<index> <name>` per line
 //!   simmem run [<index>:]<name>...      (under Miri) run the named programs
+//!   simmem judge <case index>...        (under Miri) threaded operations judged against the model
 //!
 //! Every program is announced with `BEGIN <index> <name>` before it runs and
 //! `END <index> returned|panicked` after; a Miri diagnostic ends the process,
@@ -36,8 +37,22 @@ fn main() {
                 one(idx.parse().unwrap_or(0), &p);
             }
         }
+        Some("judge") => {
+            // `judge <case index>...`: results of the threaded operations judged against the model
+            for a in &args[2..] {
+                let i: usize = a.parse().expect("case index");
+                let c = vprog::judge::case(i);
+                println!("BEGIN {i} judge/{}/n{}/t{}", c.kind, c.d.order(), c.t);
+                let _ = std::io::stdout().flush();
+                match vprog::judge::run(&c) {
+                    Ok(()) => println!("END {i} returned 0"),
+                    Err(why) => println!("END {i} MISMATCH {why}"),
+                }
+                let _ = std::io::stdout().flush();
+            }
+        }
         _ => {
-            eprintln!("usage: simmem list | run [<index>:]<name>...");
+            eprintln!("usage: simmem list | run [<index>:]<name>... | judge <case>...");
             std::process::exit(2);
         }
     }
